@@ -26,6 +26,7 @@ type vfIfaceScen struct {
 	Routes  [][2]int   `json:"routes"` // [interface (1-based), metric]
 	FIface  int        `json:"fIface"`
 	FSrcIP  bool       `json:"fSrcIP"`
+	FSrcV6  bool       `json:"fSrcV6"`
 	FSrcMAC bool       `json:"fSrcMAC"`
 	Target  string     `json:"target"` // inA24 inA16only inB24 remote none
 }
@@ -161,13 +162,16 @@ func TestVfIface(t *testing.T) {
 		}
 		if sc.FSrcIP {
 			o.srcIP = flagIP
+			if sc.FSrcV6 {
+				o.srcIP = net.ParseIP("2001:db8::7")
+			}
 		}
 		var dst *net.IPNet
 		if sc.Target != "none" {
 			_, dst, _ = net.ParseCIDR(targets[sc.Target])
 		}
 		ev := map[string]interface{}{"ev": "Select", "id": sc.ID,
-			"cfg": map[string]interface{}{"ifs": cfgIfs, "routes": routes, "fIface": fIface, "fSrcIP": sc.FSrcIP, "fSrcMAC": sc.FSrcMAC, "target": sc.Target}}
+			"cfg": map[string]interface{}{"ifs": cfgIfs, "routes": routes, "fIface": fIface, "fSrcIP": sc.FSrcIP, "fSrcV6": sc.FSrcIP && sc.FSrcV6, "fSrcMAC": sc.FSrcMAC, "target": sc.Target}}
 		res := map[string]interface{}{"err": "none", "iface": 0, "src": []int{0, 0}, "mac": "none", "vpn": false}
 		r, err := o.getScanRange(dst)
 		switch {
